@@ -182,9 +182,13 @@ def run(cx):
             t = match('(index _ (index (field 0 (itervar (call Iterator::zip (param faces) (param face_angles)))) $j))', tgt)
             if e and t and e['j'] == t['j']:
                 seen[e['j'][1]] = True
+            # the same pairing written as an inner loop over face.iter().zip(angles.iter()): corner j of the face with angle j, for every j
+            Z = '(itervar (call Iterator::zip (field 0 (itervar (call Iterator::zip (param faces) (param face_angles)))) (field 1 (itervar (call Iterator::zip (param faces) (param face_angles))))))'
+            if match(f'(sub _ (field 1 {Z}))', val) is not None and (match(f'(index _ (field 0 {Z}))', tgt) is not None or match(f'(index _ (cast _ (field 0 {Z})))', tgt) is not None):
+                seen.update({0: True, 1: True, 2: True})
             if match('(index _ (itervar (param i_bound)))', tgt) and val == ('const', 3.141592653589793):
                 okb = True
-        init = find('(call vec::from_elem 6.283185307179586 (param n))', cx.retval(b)) is not None
+        init = find('(call vec::from_elem 6.283185307179586 (param 1))', cx.retval(b)) is not None
         cx.ob('EXPR', 'calc_angle_defects', seen == {0: True, 1: True, 2: True} and okb and init,
               'defects start at 2pi (pi on boundary vertices) and angle j of every face is subtracted at vertex face[j], j = 0,1,2', where=b.file, found=str(seen))
     b = cx.fn(f'{CF}::cotan_laplacian_triplets')
